@@ -21,7 +21,7 @@ func c06Case(d D) *Case {
 	g.Crons = []string{"* * * * * *", "*/2 * * * * *", "@every 3s"}
 	cfg := GenConfig(d, 8)
 	cfg.SignalTimeout = time.Second
-	return &Case{Cfg: cfg, Prof: Profile{Bg: AllBg, Permute: true, Hold: 6, Cut: 2, SendFail: 6}, Gen: g, Steps: [2]int{2, 7}, MaxRq: 3,
+	return &Case{Cfg: cfg, Prof: Profile{Bg: AllBg, Permute: true, Hold: 6, Cut: 2, SendFail: 6, CommitFail: 25}, Gen: g, Steps: [2]int{2, 7}, MaxRq: 3,
 		Dts: []int64{0, 0, 1, 500, 1000, -1, -3}, Settle: 2, Prime: 2, StopOnCrash: true}
 }
 
